@@ -51,6 +51,8 @@ pub struct Exp {
     pub dirty_all: bool,
     /// a lenient corner was taken somewhere (counted in evidence)
     pub lenient: bool,
+    /// the position after this step is unspecified: later characters of the same string are not judged
+    pub unknown_after: bool,
 }
 
 impl Exp {
@@ -70,6 +72,7 @@ impl Exp {
             dirty_exact: None,
             dirty_all: false,
             lenient: false,
+            unknown_after: false,
         }
     }
     fn alt(&mut self, y: usize, x: usize, a: CellAlt) {
@@ -297,6 +300,9 @@ fn is_wide_lead(c: &Cell) -> bool {
 
 /// one character of draw(); returns the successor alternatives
 fn draw_char(mut e: Exp, ch: char) -> Vec<Exp> {
+    if e.unknown_after {
+        e.any_all = true;
+    }
     if e.any_all {
         return vec![e];
     }
@@ -381,9 +387,17 @@ fn draw_char(mut e: Exp, ch: char) -> Vec<Exp> {
         }
     }
     if w == 2 && s.cx + 1 >= cols {
-        // a double-width character with a single column left: statement silent
-        e.any_all = true;
+        // a double-width character with a single column left: the statement is silent about
+        // its placement - the cursor row and the cursor column are don't-care, the frame
+        // (every other row and component) is still checked; nothing can be said about the
+        // characters that follow it in the same string
+        let y = s.cy as usize;
+        for x in 0..cols as usize {
+            e.cell_alt.push(((y, x), CellAlt::Any));
+        }
+        e.cx_also = (0..=cols).collect();
         e.lenient = true;
+        e.unknown_after = true;
         return vec![e];
     }
     let (x, y) = (s.cx as usize, s.cy as usize);
